@@ -350,6 +350,19 @@ def rule_r2(ctx):
     ctx.check("R2", "__enter__: saves previous journal, stores the captured table", bool(ok), en, en.node,
               "__enter__ does not save the previous journal before replacing it / loses the captured table",
               how="the read of _current_journal dominates its replacement; both saved values reach a field of the journal")
+    # … and every entry patches for itself: wrap_ir_classes(self) lies on every path through __enter__ - what an entry later restores
+    # is the state it found, so an entry that borrows the table of an enclosing entry (a shortcut for `with j: … with j:`) makes the
+    # inner exit undo the outer entry's patch while the outer block is still running
+    wraps = [c for c in calls_in(en) if (dotted_of(c.func) or "").endswith("wrap_ir_classes")]
+    ok = False
+    if wraps:
+        wn = cfg_e.nodes_containing(wraps[0])
+        ok = bool(wn) and cfg_e.dominates(wn[0], cfg_e.exit)
+    ctx.check("R2", "__enter__: wrap_ir_classes(self) on every path", ok, en, wraps[0] if wraps else en.node,
+              "some path through __enter__ does not patch the classes itself (and so saves a table that another entry captured): when that entry is left, the classes are "
+              "restored to what they were before the *enclosing* entry - operations in the rest of the enclosing block are no longer recorded, and the classes do not "
+              "behave as they did before the inner block was entered",
+              how="the call of wrap_ir_classes dominates the exit of __enter__", construct="entry without a patch of its own")
     glob = [n for n in ast.walk(ex.node) if isinstance(n, ast.Global)] and [n for n in ast.walk(en.node) if isinstance(n, ast.Global)]
     ctx.check("R2", "enter/exit declare _current_journal global", bool(glob), en, en.node,
               "_current_journal assignment would be local", nontrivial=False)
